@@ -574,6 +574,17 @@ gen_case(const Profile &f)
       const int t = pick(0, nthr - 1);
       c.sched.preempts.push_back({t, static_cast<uint32_t>(pick(0, est_steps(t))), pick(0, 3)});
     }
+    if (chance(35)) {
+      // a burst: one thread is switched out two or three times within a few steps (inside one call), each time in
+      // favour of a generated thread - windows that need two intruders between adjacent instructions of one operation
+      const int t = pick(0, nthr - 1);
+      int x = pick(0, est_steps(t));
+      const int m = pick(2, 3);
+      for (int j = 0; j < m; j++) {
+        c.sched.preempts.push_back({t, static_cast<uint32_t>(x), pick(0, 3)});
+        x += pick(1, 3);
+      }
+    }
   } else if (style == 2) {
     static const int dens[] = {3, 8, 20, 40};
     const int d = dens[pick(0, 3)];
